@@ -50,14 +50,30 @@ def mRuleCompleteAt (o : Op1) (k : RuleKey) (r : Rule) (P : List V) : Bool :=
       | _ => false
   | _ => false
 
-/-- backward half of exactness for operator and modal rules (quantifier rules: not covered here) -/
+def qBranchMay (q : Quant) (P : List V) (pt : Option V) (br : List AddT) : Bool :=
+  br.all fun
+    | .node n => L.maySat n.des (Tm.evalQ L.T q P pt n.tm)
+    | .access => true
+
+/-- quantifier rules on a value profile `P` of the body over the (nonempty) domain -/
+def qRuleCompleteAt (q : Quant) (k : RuleKey) (r : Rule) (P : List V) : Bool :=
+  match r.witness with
+  | .none => !(r.branches.any (L.qBranchMay q P none)) || L.nodeSatQ q k P
+  | .newConst => !(r.branches.any fun br => P.any fun v => L.qBranchMay q P (some v) br) || L.nodeSatQ q k P
+  | .eachConst =>
+      match r.branches with
+      | [br] => !(P.all fun v => L.qBranchMay q P (some v) br) || L.nodeSatQ q k P
+      | _ => false
+  | _ => false
+
+/-- backward half of exactness: operator rules on operand values, modal and quantifier rules on value profiles -/
 def ruleCompleteB (k : RuleKey) (r : Rule) : Bool :=
   match k.shape with
   | .op1 o =>
       if o.isModal then L.mProfiles.all (L.mRuleCompleteAt o k r)
       else r.witness == .none && L.T.vals.all fun a => L.opRuleCompleteAt k r a a
   | .op2 _ => r.witness == .none && L.T.vals.all fun a => L.T.vals.all fun b => L.opRuleCompleteAt k r a b
-  | .quant _ => true
+  | .quant q => L.nonemptyProfiles.all (L.qRuleCompleteAt q k r)
 
 def incompleteRules : List RuleKey := (L.rules.filter fun (k, r) => !L.ruleCompleteB k r).map (·.1)
 
@@ -87,9 +103,29 @@ def hintikkaCoreB : Bool :=
 
 end LogicData
 
-/-- the sentences the propositional + modal Hintikka lemma covers: parameters of predications are
-    constants, no Identity / Existence, no quantifier the logic interprets; what the logic leaves
-    uninterpreted is an opaque literal and is not looked into -/
+/-- the sentences the Hintikka lemma covers, `bound` = variables bound by enclosing quantifiers:
+    parameters of predications are constants or bound variables, no Identity / Existence; a quantifier
+    the logic interprets does not re-bind its variable inside its body and has nothing uninterpreted
+    in its body (`Sent.quantOK`); what the logic leaves uninterpreted is an opaque literal and is not
+    looked into -/
+def Sent.fo (L : LogicData) (bound : List (Nat × Nat)) : Sent → Bool
+  | .atom _ _ => true
+  | .pred p ps => p != Pred.identity && p != Pred.existence &&
+      ps.all fun | .const _ _ => true | .var i s => bound.contains (i, s)
+  | .quant _ vi vs b =>
+      !L.quantified || (b.noBinder vi vs && b.interp L.modal L.quantified && b.fo L ((vi, vs) :: bound))
+  | .op1 o a => (o.isModal && !L.modal) || a.fo L bound
+  | .op2 _ a b => a.fo L bound && b.fo L bound
+
+/-- no Identity / Existence predication in the part of the sentence the logic interprets -/
+def Sent.noSys (L : LogicData) : Sent → Bool
+  | .atom _ _ => true
+  | .pred p _ => p != Pred.identity && p != Pred.existence
+  | .quant _ _ _ b => !L.quantified || b.noSys L
+  | .op1 o a => (o.isModal && !L.modal) || a.noSys L
+  | .op2 _ a b => a.noSys L && b.noSys L
+
+/-- … without any quantifier the logic interprets (propositional + modal vocabulary) -/
 def Sent.ground (L : LogicData) : Sent → Bool
   | .atom _ _ => true
   | .pred p ps => p != Pred.identity && p != Pred.existence && ps.all fun | .const _ _ => true | .var _ _ => false
@@ -97,7 +133,15 @@ def Sent.ground (L : LogicData) : Sent → Bool
   | .op1 o a => (o.isModal && !L.modal) || a.ground L
   | .op2 _ a b => a.ground L && b.ground L
 
-/-- node markers and world labels are the ones the logic uses; sentences are ground -/
+/-- node markers and world labels are the ones the logic uses; sentences are closed first-order
+    sentences in the sense of `Sent.fo` -/
+def Branch.foB (L : LogicData) (b : Branch) : Bool :=
+  b.nodes.all fun
+    | .sent s d w => s.fo L [] && L.markers.contains d && (w.isSome == L.modal)
+    | .access _ _ => L.modal
+    | _ => true
+
+/-- … with ground sentences -/
 def Branch.groundB (L : LogicData) (b : Branch) : Bool :=
   b.nodes.all fun
     | .sent s d w => s.ground L && L.markers.contains d && (w.isSome == L.modal)
